@@ -65,7 +65,13 @@ func c04cprefix(m *Map[int, int], keys []int) c04state {
 		m.Store(keys[i], v)
 		st.has[i], st.val[i] = true, v
 	}
-	promote := func() { m.Range(func(int, int) bool { return true }) }
+	promote := func() {
+		if vChoose("promoteBy", 2) == 0 {
+			m.Range(func(int, int) bool { return true })
+		} else {
+			m.Load(keys[0])
+		}
+	}
 	switch vChoose("prefix", 7) {
 	case 0:
 	case 6: // promoted by misses (missLocked) rather than by Range
